@@ -298,6 +298,8 @@ def coq_cases(sc, ob):
         o = ob["gets"][i]
         exp = set(g.get("expired", []))
         down = set(g.get("down", []))
+        if 0 in exp:
+            continue      # the owner's expired copy is evicted cluster-wide at any moment: the copies after the read are a race
         held = clist(copt(qlib.centry(val_of(h, g["copies"][h]), 1 if h in exp else 0, g["copies"][h])) if g["copies"][h] else "None" for h in range(4))
         reach = clist(cbool(h not in down) for h in range(4))
         if o["res"] == "ok":
